@@ -8,6 +8,7 @@ import (
 	"io"
 	"math/rand"
 	"net/http"
+	"net/url"
 	"runtime"
 	"sort"
 	"strings"
@@ -67,9 +68,34 @@ type c04LBObs struct {
 }
 
 type c04Inst struct {
-	ID   int      `json:"id"`
-	Tags []string `json:"tags"`
-	W    int      `json:"w"`
+	ID     int      `json:"id"`
+	Tags   []string `json:"tags"`
+	W      int      `json:"w"`
+	Port   int      `json:"port,omitempty"`   // 0 = 8080
+	Scheme string   `json:"scheme,omitempty"` // "" = default (http)
+	Addr   string   `json:"addr,omitempty"`   // "" = in<id>.test
+}
+
+func c04InstAddr(x c04Inst) string {
+	if x.Addr != "" {
+		return x.Addr
+	}
+	return fmt.Sprintf("in%d.test", x.ID)
+}
+
+func c04InstPort(x c04Inst) uint16 {
+	if x.Port != 0 {
+		return uint16(x.Port)
+	}
+	return 8080
+}
+
+func c04InstURL(x c04Inst) string {
+	sch := x.Scheme
+	if sch == "" {
+		sch = "http"
+	}
+	return fmt.Sprintf("%s://%s:%d", sch, c04InstAddr(x), c04InstPort(x))
 }
 
 type c04Op struct {
@@ -82,6 +108,7 @@ type c04PoolIn struct {
 	HKey   string   `json:"hkey"`
 	Tags   []string `json:"tags"`
 	Static []int    `json:"static"` // weights of the static servers
+	URLs   []string `json:"urls,omitempty"` // URL of static server i when given (shapes: IPv6 literal, port, path, ...)
 	Svc    bool     `json:"svc"`    // serviceName set
 	Seed   int64    `json:"seed"`
 	Ops    []c04Op  `json:"ops"`
@@ -264,16 +291,34 @@ func c04List(sp *ServerPool) []c04Srv {
 var c04Sent atomic.Value // string: URL host of the last request handed to the transport
 
 func c04Stub(r *http.Request, client *http.Client) (*http.Response, error) {
-	c04Sent.Store(r.URL.Scheme + "://" + r.URL.Host)
+	c04Sent.Store(r.URL.String())
 	return &http.Response{StatusCode: 200, Header: http.Header{}, Body: io.NopCloser(strings.NewReader("")),
 		ProtoMajor: 1, ProtoMinor: 1, Request: r}, nil
+}
+
+// c04Target maps the URL a request was sent to back to the configured URL of the server of list l
+// it was built from (prepareRequest: server URL + request path).
+func c04Target(l []*Server, sent, path string) string {
+	if sent == "" {
+		return ""
+	}
+	for _, s := range l {
+		if u, err := url.Parse(s.URL + path); err == nil && u.String() == sent {
+			return s.URL
+		}
+	}
+	return sent
 }
 
 func c04PoolYAML(in c04PoolIn) map[string]interface{} {
 	pool := map[string]interface{}{}
 	svrs := []interface{}{}
 	for i, w := range in.Static {
-		svrs = append(svrs, map[string]interface{}{"url": c04StaticURL(i), "weight": w})
+		u := c04StaticURL(i)
+		if i < len(in.URLs) && in.URLs[i] != "" {
+			u = in.URLs[i]
+		}
+		svrs = append(svrs, map[string]interface{}{"url": u, "weight": w})
 	}
 	if len(svrs) > 0 {
 		pool["servers"] = svrs
@@ -312,11 +357,22 @@ func c04NewPool(in c04PoolIn) *ServerPool {
 	return p.mainPool
 }
 
+// c04NewPoolGuarded : (pool, validation accepted, Init panicked)
+func c04NewPoolGuarded(in c04PoolIn) (sp *ServerPool, valid bool, panicked bool) {
+	defer func() {
+		if r := recover(); r != nil {
+			sp, valid, panicked = nil, true, true
+		}
+	}()
+	sp = c04NewPool(in)
+	return sp, sp != nil, false
+}
+
 func c04Instances(xs []c04Inst) map[string]*serviceregistry.ServiceInstanceSpec {
 	m := map[string]*serviceregistry.ServiceInstanceSpec{}
 	for _, x := range xs {
 		s := &serviceregistry.ServiceInstanceSpec{RegistryName: "reg", ServiceName: "svc",
-			InstanceID: fmt.Sprintf("i%d", x.ID), Address: fmt.Sprintf("in%d.test", x.ID), Port: 8080,
+			InstanceID: fmt.Sprintf("i%d", x.ID), Address: c04InstAddr(x), Port: c04InstPort(x), Scheme: x.Scheme,
 			Tags: x.Tags, Weight: x.W}
 		m[s.Key()] = s
 	}
@@ -326,8 +382,21 @@ func c04Instances(xs []c04Inst) map[string]*serviceregistry.ServiceInstanceSpec 
 func c04RunPool(in c04PoolIn) (obs c04PoolObs) {
 	obs.Init = []c04Srv{}
 	obs.Outs = []c04Out{}
-	sp := c04NewPool(in)
-	if sp == nil {
+	sp, valid, panicked := c04NewPoolGuarded(in)
+	if panicked {
+		// validation accepted the spec and building the pool panicked: every operation of the
+		// history is reported as a panic
+		obs.Valid = true
+		for _, op := range in.Ops {
+			if op.Use != nil {
+				obs.Outs = append(obs.Outs, c04Out{IsUse: true, List: []c04Srv{}, Draw: -1})
+			} else if op.Req != nil {
+				obs.Outs = append(obs.Outs, c04Out{Draw: -1, Status: -2, Result: "panic"})
+			}
+		}
+		return
+	}
+	if !valid {
 		return
 	}
 	obs.Valid = true
@@ -349,6 +418,7 @@ func c04RunPool(in c04PoolIn) (obs c04PoolObs) {
 		ctx.SetRequest(context.DefaultNamespace, req)
 		o := c04Out{}
 		o.Key, o.Draw = c04Oracle(sp.LoadBalancer(), in.HKey, req, in.Seed+int64(i))
+		curList := c04Servers(sp.LoadBalancer())
 		c04Sent.Store("")
 		func() {
 			defer func() {
@@ -362,7 +432,7 @@ func c04RunPool(in c04PoolIn) (obs c04PoolObs) {
 				o.Status = resp.StatusCode()
 			}
 		}()
-		o.Target = c04Sent.Load().(string)
+		o.Target = c04Target(curList, c04Sent.Load().(string), "/p")
 		obs.Outs = append(obs.Outs, o)
 	}
 	return
@@ -704,6 +774,36 @@ func c04GenInsts(r *vfRand, adv bool, next *int) []c04Inst {
 	return xs
 }
 
+// c04GenURL : server URL shapes that validation accepts (unique per index)
+func c04GenURL(r *vfRand, i int) string {
+	switch r.Intn(12) {
+	case 0:
+		return fmt.Sprintf("http://st%d.test:8080", i)
+	case 1:
+		return fmt.Sprintf("http://10.9.0.%d", i+1)
+	case 2:
+		return fmt.Sprintf("http://10.9.0.%d:8080", i+1)
+	case 3:
+		return fmt.Sprintf("http://[fd00::%x]", i+1) // IPv6 literal without a port
+	case 4:
+		return fmt.Sprintf("http://[fd00::%x]:8080", i+1)
+	case 5:
+		return fmt.Sprintf("http://st%d.test/base", i)
+	case 6:
+		return fmt.Sprintf("HTTP://st%d.test", i)
+	case 7:
+		return fmt.Sprintf("http://st%d.test/", i)
+	case 8:
+		return fmt.Sprintf("http://:%d", 8000+i) // a port but no host
+	case 9:
+		return fmt.Sprintf("https://st%d.test", i)
+	case 10:
+		return fmt.Sprintf("http://[::1]:%d", 9000+i)
+	default:
+		return ""
+	}
+}
+
 func c04GenPool(r *vfRand, adv bool) c04PoolIn {
 	in := c04PoolIn{Policy: c04GenPolicy(r, adv), HKey: r.PickStr("X-User", "x-user", "X-Key")}
 	n := c04GenN(r)
@@ -726,6 +826,11 @@ func c04GenPool(r *vfRand, adv bool) c04PoolIn {
 		w := r.PickInt(-1, -7, 101, 100, 0, 1, 1000)
 		for i := range in.Static {
 			in.Static[i] = w
+		}
+	}
+	if r.Chance(1, 3) || adv { // URL shapes of the static servers
+		for i := range in.Static {
+			in.URLs = append(in.URLs, c04GenURL(r, i))
 		}
 	}
 	in.Svc = r.Chance(2, 3)
